@@ -715,6 +715,25 @@ func propC16(r *Run) {
 			r.sample(fmt.Sprintf("origin.slow %s %d", encBytes(b), nn))
 		}
 	}
+	// every byte of the 9-column index of every line replaced by a non-blank / a digit / a TAB
+	// (seeded change C16-j: the fast path never looked at column 1)
+	for _, n := range []int{1, 61, 130} {
+		blk := seqio.NewOrigin(c16Gen(n, 0, seed+n)).Buffer
+		for off := 0; off < len(blk); {
+			end := off + bytes.IndexByte(blk[off:], '\n') + 1
+			for col := 0; col < 9 && off+col < end; col++ {
+				for _, c := range []byte{'x', '0', '7', '\t'} {
+					if blk[off+col] == c {
+						continue
+					}
+					b := append([]byte(nil), blk...)
+					b[off+col] = c
+					c16Damaged(r, b, n, "index-column-byte")
+				}
+			}
+			off = end
+		}
+	}
 	// the witness shapes of the repaired defect F10, always
 	c16Damaged(r, []byte("        1 ab\n"), 1, "trailing-characters")
 	c16Damaged(r, []byte("        1 ab"), 1, "trailing-characters")
